@@ -1,7 +1,9 @@
 package main
 
 import (
+	"encoding/json"
 	"flag"
+	"sort"
 	"fmt"
 	"os"
 	"strconv"
@@ -41,7 +43,11 @@ func main() {
 			os.Exit(2)
 		}
 		spec.solverDesc = *solver + " (one incremental process per job; push/assert/check-sat/get-value/pop)"
-		w, err := LoadWorld(*repo, *verif, spec.ID)
+		hp := spec.Harness
+		if len(hp) == 0 {
+			hp = []string{spec.ID}
+		}
+		w, err := LoadWorld(*repo, *verif, hp...)
 		if err != nil {
 			fmt.Printf("INCONCLUSIVE property=%s reason=load failed: %v\n", spec.ID, err)
 			os.Exit(2)
@@ -67,7 +73,26 @@ func main() {
 			v, _ := strconv.ParseInt(a, 10, 64)
 			j.Args = append(j.Args, v)
 		}
+		if os.Getenv("GOSYM_PROFILE") != "" {
+			profileQueries = true
+		}
 		r := runJob(w, j, *solver)
+		if r.QueryPos != nil {
+			type kv struct {
+				k string
+				v int
+			}
+			var kvs []kv
+			for k, v := range r.QueryPos {
+				kvs = append(kvs, kv{k, v})
+			}
+			sort.Slice(kvs, func(i, j int) bool { return kvs[i].v > kvs[j].v })
+			for i, x := range kvs {
+				if i < 25 {
+					fmt.Printf("  %6d %s\n", x.v, x.k)
+				}
+			}
+		}
 		fmt.Printf("load %.1fs; paths=%d ends=%v forks=%d obligations=%d discharged=%d unknown=%d steps=%d wall=%.1fs\n", w.loadTime.Seconds(), r.Paths, r.Ends, r.Forks, r.Obligations, r.Discharged, r.Unknown, r.Steps, r.Wall.Seconds())
 		fmt.Printf("solver: %+v\n", r.Solver)
 		fmt.Printf("covers: %v\nasserts: %v\n", r.Covers, r.Asserts)
@@ -87,6 +112,13 @@ func main() {
 		}
 		spec := specs[pos[0]]
 		rp := spec.Replay["*"]
+		if data, err := os.ReadFile(pos[1]); err == nil {
+			var sc struct{ Harness string }
+			json.Unmarshal(data, &sc)
+			if r, ok := spec.Replay[sc.Harness]; ok {
+				rp = r
+			}
+		}
 		ok, out := runReplay(*repo, *verif, rp, pos[1])
 		fmt.Println(out)
 		if ok {
@@ -106,3 +138,5 @@ func envOr(k, d string) string {
 	}
 	return d
 }
+
+var profileQueries bool
